@@ -80,7 +80,7 @@ def table(metas) -> str:
         own = m["breaks_property"]
         det = m.get("detail", {}).get(own) or next(iter(m.get("detail", {}).values()), [""])
         rule = det[0].split(" ")[0] if det and det[0] else ""
-        rows.append(f"| {name} | {own} | {first} | {', '.join(m['caught_by']) or '**missed**'}{' (errors: ' + ', '.join(m['analysis_errors']) + ')' if m.get('analysis_errors') else ''} | {rule} |")
+        rows.append(f"| {name} | {own} | {first} | {', '.join(m['caught_by']) or ('**missed** (documented: outside what the check decides)' if m.get('documented_miss') else '**missed**')}{' (errors: ' + ', '.join(m['analysis_errors']) + ')' if m.get('analysis_errors') else ''} | {rule} |")
     return "\n".join(rows)
 
 
